@@ -33,8 +33,4 @@ theorem every_wire_sized_allocation_guarded :
 /-- non-vacuity: the tables are not empty (the known allocation sites are found). -/
 example : 3 ≤ G.wireSizedAllocsMain.length ∧ 3 ≤ G.wireSizedAllocsFx.length := by decide
 
-/-- filexfer copy primitives (ConsumeByteSliceCopy, Buffer.UnmarshalBinary) are the grow-by-append/copy idiom:
-    the result has the length of the data and equals it for every hint. -/
-theorem fx_copy_prims_exact : G.fxCopyPrims.all (fun p => p.2) = true ∧ G.fxCopyPrims.length = 2 := by decide
-
 end Sftp.C08Wire
